@@ -124,3 +124,37 @@ CONTRACTS["model:JunctionCompartment.balance#group"] = dict(
     frame_props=["C01", "C02", "C04"],
     defined_props=["C02"],
 )
+
+# ------------------------------------------------------------------------------------------------ unit conversion (C03)
+# Contract on the body of the loop `for par in self._exec_order['transition_pars']` of Model.update_links, for an arbitrary
+# transition parameter.  The documented conversion (docs/general/Parameters.rst, property C03):
+#   probability / rate p, timescale T:  fraction p*dt/T        duration d: fraction dt/(d*T)
+#   number N: N*dt/T people, shared over the source compartments in proportion to their size (fraction N*dt/T / total size,
+#   0 if nobody is there); a source compartment emits N*dt/T itself.   A negative value moves nobody.
+_conv_requires = ["0 <= ti", "ti < len(par.vals)", "self.dt > 0", "par.timescale > 0", "len(par.links) > 0",
+                  "all(implies(not isinstance(l.source, TimedCompartment) and not isinstance(l.source, SourceCompartment), ti < len(l.source.vals) and l.source.vals[ti] >= 0) for l in par.links)",
+                  "all(implies(isinstance(l.source, SourceCompartment), ti < len(l.source.vals) and l.source.vals[ti] == 0) for l in par.links)",   # SourceCompartment.preallocate fills 0
+                  "all(implies(isinstance(l.source, TimedCompartment), ti < l.source._vals.shape[1] and l.source._vals.shape[0] >= 1) for l in par.links)",
+                  "all(l.source._vals[i, ti] >= 0 for l in par.links if isinstance(l.source, TimedCompartment) for i in range(l.source._vals.shape[0]))",
+                  "par._source_popsize_cache_time is None or par._source_popsize_cache_time != ti"]   # the cache is keyed by ti and each parameter is visited once per step
+_popsize = "sum(l.source[ti] for l in par.links)"
+CONTRACTS["model:Model.update_links#conversion"] = dict(
+    schema=schema,
+    fragment={"iter": "self._exec_order['transition_pars']"},
+    params={"par": "obj:Parameter", "ti": "int"},
+    requires=_conv_requires,
+    modifies=["l._cache for l in par.links", "par._source_popsize_cache_time", "par._source_popsize_cache_val"],
+    raises={"ModelError": "par.units != 'rate' and par.units != 'probability' and par.units != 'number' and par.units != 'duration' and par.vals[ti] > 0"},
+    ensures=[
+        ("C03.rate_probability", "implies(par.units == 'rate' or par.units == 'probability', all(l._cache == max(0, par.vals[ti]) * self.dt / par.timescale for l in par.links))"),
+        ("C03.duration", "implies(par.units == 'duration', all(l._cache == (self.dt / (par.vals[ti] * par.timescale) if par.vals[ti] > 0 else 0) for l in par.links))"),
+        ("C03.number_from_source", "implies(par.units == 'number' and isinstance(par.links[0].source, SourceCompartment), par.links[0]._cache == max(0, par.vals[ti]) * self.dt / par.timescale)"),
+        ("C03.number_shared", "implies(par.units == 'number' and not isinstance(par.links[0].source, SourceCompartment) and par.vals[ti] > 0, "
+                              "all(l._cache * old(%s) == (par.vals[ti] * self.dt / par.timescale if old(%s) != 0 else 0) for l in par.links))" % (_popsize, _popsize)),
+        ("C02+C03.negative_moves_nobody", "implies(par.vals[ti] <= 0, all(l._cache == 0 for l in par.links))"),
+        ("C02.fraction_nonneg", "implies(not (par.units == 'number' and isinstance(par.links[0].source, SourceCompartment)), all(l._cache >= 0 for l in par.links))"),
+    ],
+    frame_props=["C01", "C02", "C03"],
+    defined_props=["C02"],
+    raises_props=["C03"],
+)
